@@ -224,6 +224,35 @@ pub fn entries() -> Vec<(&'static str, Entry, bool)> {
             }
             ok
         }),
+        acc_ep!("tokens() size_hint/nth/count", |d| {
+            let t = d.tokens();
+            let (lo, hi) = t.size_hint();
+            assert!(hi.map(|h| lo <= h).unwrap_or(true));
+            let mut t = t;
+            let a = t.nth(1).map(|x| x.is_ok()).unwrap_or(false);
+            a && t.take(1 << 16).count() > 0
+        }),
+        acc_ep!("array_iter::<Token>() size_hint/nth/last", |d| match d.array_iter::<Token>() {
+            Ok(mut it) => {
+                let (lo, hi) = it.size_hint();
+                assert!(hi.map(|h| lo <= h).unwrap_or(true));
+                let a = it.nth(1).map(|x| x.is_ok()).unwrap_or(false);
+                a && it.take(1 << 12).take_while(|x| x.is_ok()).last().is_some()
+            }
+            Err(_) => false,
+        }),
+        acc_ep!("map_iter::<u64,Token>() size_hint/skip/step_by", |d| match d.map_iter::<u64, Token>() {
+            Ok(it) => {
+                let _ = it.size_hint();
+                it.take(1 << 12).skip(1).step_by(2).all(|x| x.is_ok())
+            }
+            Err(_) => false,
+        }),
+        acc_ep!("bytes_iter()/str_iter() size_hint/nth", |d| {
+            let a = d.bytes_iter().map(|mut it| { let _ = it.size_hint(); it.nth(1).map(|x| x.is_ok()).unwrap_or(false) }).unwrap_or(false);
+            let b = d.str_iter().map(|mut it| { let _ = it.size_hint(); it.nth(1).map(|x| x.is_ok()).unwrap_or(false) }).unwrap_or(false);
+            a || b
+        }),
         acc_ep!("probe().skip()", |d| {
             let before = d.position();
             let r = d.probe().skip().is_ok();
@@ -348,6 +377,19 @@ fn ops() -> Vec<(&'static str, Op)> {
         ("(u8,u8)", |d| d.decode::<(u8, u8)>().is_ok()),
         ("Duration", |d| d.decode::<std::time::Duration>().is_ok()),
         ("probe-skip", |d| d.probe().skip().is_ok()),
+        // the other Iterator methods of the library's iterators (also asked before the first next())
+        ("tokens-size_hint", |d| { let t = d.tokens(); let (lo, hi) = t.size_hint(); assert!(hi.map(|h| lo <= h).unwrap_or(true)); false }),
+        ("tokens-collect-hashmap", |d| { let m: std::collections::HashMap<usize, bool> = d.tokens().take(64).enumerate().map(|(i, t)| (i, t.is_ok())).collect(); m.values().any(|ok| *ok) }),
+        ("tokens-nth2", |d| d.tokens().nth(2).map(|t| t.is_ok()).unwrap_or(false)),
+        ("tokens-count", |d| { let mut t = d.tokens(); let first = t.next().map(|x| x.is_ok()).unwrap_or(false); let _ = t.take(1 << 16).count(); first }),
+        ("array_iter-size_hint", |d| d.array_iter::<u8>().map(|it| { let (lo, hi) = it.size_hint(); assert!(hi.map(|h| lo <= h).unwrap_or(true)); true }).unwrap_or(false)),
+        ("array_iter-nth2", |d| d.array_iter::<u8>().map(|mut it| it.nth(2).map(|x| x.is_ok()).unwrap_or(false)).unwrap_or(false)),
+        ("array_iter-last", |d| d.array_iter::<u8>().map(|it| it.take(1 << 12).take_while(|x| x.is_ok()).last().is_some()).unwrap_or(false)),
+        ("map_iter-size_hint", |d| d.map_iter::<u8, u8>().map(|it| { let (lo, hi) = it.size_hint(); assert!(hi.map(|h| lo <= h).unwrap_or(true)); true }).unwrap_or(false)),
+        ("map_iter-skip1-count", |d| d.map_iter::<u8, u8>().map(|it| { let _ = it.take(1 << 12).skip(1).take_while(|x| x.is_ok()).count(); true }).unwrap_or(false)),
+        ("map_iter-nth1", |d| d.map_iter::<u8, u8>().map(|mut it| it.nth(1).map(|x| x.is_ok()).unwrap_or(false)).unwrap_or(false)),
+        ("bytes_iter-size_hint-last", |d| d.bytes_iter().map(|it| { let _ = it.size_hint(); it.take(1 << 12).take_while(|x| x.is_ok()).last().is_some() }).unwrap_or(false)),
+        ("str_iter-size_hint-nth1", |d| d.str_iter().map(|mut it| { let _ = it.size_hint(); it.nth(1).map(|x| x.is_ok()).unwrap_or(false) }).unwrap_or(false)),
     ]
 }
 
